@@ -326,6 +326,9 @@ func (a *BigInt) pow(b, m *BigInt) (Object, error) {
 		if m != nil {
 			return nil, ExceptionNewf(TypeError, "pow() 2nd argument cannot be negative when 3rd argument specified")
 		}
+		if (*big.Int)(a).Sign() == 0 {
+			return nil, ExceptionNewf(ZeroDivisionError, "0.0 cannot be raised to a negative power")
+		}
 		fa, err := a.Float()
 		if err != nil {
 			return nil, err
